@@ -21,10 +21,20 @@ import (
 	"verif/vdb"
 )
 
+// CNote hangs off every model through a polymorphic relation: its condition has a constant part (owner_type)
+// besides the owner's key, so a delete of the relation for an owner WITHOUT key must not fall back on that part.
+type CNote struct {
+	ID        int64 `gorm:"primaryKey"`
+	OwnerID   int64
+	OwnerType string
+	V         string
+}
+
 type Plain struct {
-	ID int64 `gorm:"primaryKey"`
-	A  int64
-	S  string
+	ID    int64 `gorm:"primaryKey"`
+	A     int64
+	S     string
+	Notes []CNote `gorm:"polymorphic:Owner"`
 }
 
 type Soft struct {
@@ -32,6 +42,7 @@ type Soft struct {
 	A         int64
 	S         string
 	DeletedAt gorm.DeletedAt
+	Notes     []CNote `gorm:"polymorphic:Owner"`
 }
 
 // Soft2 has two soft-delete columns: every one of them adds its own filter, none of
@@ -42,6 +53,7 @@ type Soft2 struct {
 	S          string
 	DeletedAt  gorm.DeletedAt
 	ArchivedAt gorm.DeletedAt
+	Notes      []CNote `gorm:"polymorphic:Owner"`
 }
 
 func (Soft2) TableName() string { return "soft2" }
@@ -175,6 +187,12 @@ var finishers = []finisher{
 	{`Delete(&M{}, []int64{})`, false, func(db *gorm.DB, m model) *gorm.DB { return db.Delete(m.zeroPtr(), []int64{}) }},
 	{`Delete(&[]M{})`, false, func(db *gorm.DB, m model) *gorm.DB { return db.Delete(m.emptySl()) }},
 	{`Delete(&[]M{{},{}})`, false, func(db *gorm.DB, m model) *gorm.DB { return db.Delete(m.zeroSl()) }},
+	// a delete that takes a relation along: without a key there is nothing to take along either
+	{`Select("Notes").Delete(&M{})`, false, func(db *gorm.DB, m model) *gorm.DB { return db.Select("Notes").Delete(m.zeroPtr()) }},
+	{`Select(clause.Associations).Delete(&M{})`, false, func(db *gorm.DB, m model) *gorm.DB {
+		return db.Select(clause.Associations).Delete(m.zeroPtr())
+	}},
+	{`Select("Notes").Delete(&[]M{{},{}})`, false, func(db *gorm.DB, m model) *gorm.DB { return db.Select("Notes").Delete(m.zeroSl()) }},
 }
 
 const nModes = 3 // how the model is supplied to update finishers: Model(&M{}) | Table(t) | Model(&[]M{{},{}})
@@ -220,7 +238,8 @@ type env struct {
 var E *env
 
 const seedSQL = `
-DELETE FROM plains; DELETE FROM softs; DELETE FROM soft2;
+DELETE FROM plains; DELETE FROM softs; DELETE FROM soft2; DELETE FROM c_notes;
+INSERT INTO c_notes(id,owner_id,owner_type,v) VALUES (1,1,'plains','n1'),(2,2,'plains','n2'),(3,1,'softs','n3'),(4,2,'softs','n4'),(5,1,'soft2','n5'),(6,2,'soft2','n6');
 INSERT INTO soft2(id,a,s,deleted_at,archived_at) VALUES (1,1,'t1',NULL,NULL),(2,2,'t2',NULL,NULL),(3,1,'t3','2020-01-01 00:00:00',NULL),(4,2,'t4',NULL,'2020-01-01 00:00:00');
 INSERT INTO plains(id,a,s) VALUES (1,1,'p1'),(2,1,'p2'),(3,2,'p3'),(4,3,'p4');
 INSERT INTO softs(id,a,s,deleted_at) VALUES (1,1,'s1',NULL),(2,2,'s2',NULL),(3,1,'s3','2020-01-01 00:00:00'),(4,2,'s4','2020-01-01 00:00:00');
@@ -231,7 +250,7 @@ func open(c *core.Ctx, agu bool) *vdb.Handle {
 	if err != nil {
 		panic(err)
 	}
-	if err := h.DB.AutoMigrate(&Plain{}, &Soft{}, &Soft2{}); err != nil {
+	if err := h.DB.AutoMigrate(&Plain{}, &Soft{}, &Soft2{}, &CNote{}); err != nil {
 		panic(err)
 	}
 	if _, err := h.SQL.Exec(seedSQL); err != nil {
@@ -242,7 +261,7 @@ func open(c *core.Ctx, agu bool) *vdb.Handle {
 
 func initEnv(c *core.Ctx) {
 	E = &env{h: open(c, false), hCfgAGU: open(c, true)}
-	E.seed = vdb.Dump(E.h.SQL, "plains", "softs", "soft2")
+	E.seed = vdb.Dump(E.h.SQL, "plains", "softs", "soft2", "c_notes")
 }
 
 func reseed(h *vdb.Handle) {
@@ -305,7 +324,7 @@ func runOp(h *vdb.Handle, m model, chain []int, fin finisher, mode int, sessAGU 
 	desc = append(desc, fin.name)
 	mark := h.Rec.Mark()
 	res := fin.f(db, m)
-	return opResult{stale: stale, err: res.Error, rows: res.RowsAffected, events: h.Rec.Since(mark), dump: vdb.Dump(h.SQL, "plains", "softs", "soft2")},
+	return opResult{stale: stale, err: res.Error, rows: res.RowsAffected, events: h.Rec.Since(mark), dump: vdb.Dump(h.SQL, "plains", "softs", "soft2", "c_notes")},
 		m.name + ": db." + strings.Join(desc, ".")
 }
 
@@ -387,9 +406,7 @@ func run(c *core.Ctx) {
 	// (2) positive: same chain with one effective condition inserted
 	cond := c.R.Intn(len(conds))
 	pos := c.R.Intn(len(chain) + 1)
-	if conds[cond].name == `Model(&M{ID:1})` && !fin.needsMdl {
-		cond = 0
-	}
+	// (for Delete the key may come from Model() while the value handed to Delete is empty: still a condition)
 	// a leading Or as first condition call is still a condition; a Model() with key placed
 	// before a later Model(&M{}) step is overridden: keep only placements that stay effective
 	if conds[cond].name == `Model(&M{ID:1})` {
